@@ -51,6 +51,9 @@ CHECKS["C13"] = ("metamorphic property-based testing (proptest): time reflection
 CHECKS["C01"] = ("property-based testing (proptest) against closed-form exact solutions: tolerance ladders, per-component bounds, RK4 convergence order",
          "Problems are constructed from exact solutions (stacked closed-form blocks, time-warp, linear mixing) with an a-priori amplification bound kappa; every returned sample of every rung of a tolerance ladder is compared with the exact solution against C*kappa*naccpt*tolscale; decoupled problems pin per-component tolerances; RK4 is checked for fourth-order convergence. One algorithm-inherent finding (K1, vanishing embedded error estimate) is keyed narrowly and excluded.",
          "C = 50 (max observed ratio 19 over 3e5 cases, typical < 0.2); Radau's documented internal tolerance transformation is modelled in the absolute-dominated mode.", "DESIGN.md §4 C01")
+CHECKS["C02"] = ("property-based testing (proptest) + exhaustive rooted-tree enumeration: Butcher weights extracted from the compiled steppers with a unit-vector right-hand side; local-error slopes; Pade approximant; polynomial quadrature; step-count scaling",
+         "The stage weights the explicit steppers actually apply (one step, a clipped step, two consecutive steps, dense output on/off, generated x0 and h = +-2^k) are extracted exactly and checked against every rooted-tree order condition up to p (200 trees for DOP853); Radau is checked against the (2,3) Pade approximant over generated complex z; the embedded estimators through exact polynomial quadrature and tolerance scaling.",
+         "Assumes the documented stage evaluation order; slope thresholds calibrated on the repaired tree.", "DESIGN.md §4 C02")
 PENDING = {}
 
 def main():
